@@ -1155,7 +1155,15 @@ def _origins_place(body, place, passthru, seen, out, depth, pend=None):
             if vname not in ('Some', 'Ok', 'Continue'):
                 chain.append(vname)
     if chain:
-        out.add(('payload', chain[0], lty, '>'.join(chain)))
+        # field path after the last downcast (which payload field of that variant)
+        fpath = []
+        seen_last = False
+        for p in reversed(projs):
+            if isinstance(p, str) and p.startswith('v') and ':' in p:
+                break
+            if isinstance(p, str) and p.startswith('f'):
+                fpath.append(p.split(':')[0])
+        out.add(('payload', chain[0], lty, '>'.join(chain), '.'.join(reversed(fpath))))
         return
     key = (L, tuple(str(p) for p in projs if isinstance(p, str) and p.startswith('f')), pend)
     if key in seen or depth > 80:
@@ -1191,6 +1199,9 @@ def _origins_place(body, place, passthru, seen, out, depth, pend=None):
                 _origins_place(body, o[1], passthru, seen, out, depth + 1, pend if len(o[1]) == 1 else None)
         elif k in ('ref', 'rawptr'):
             _origins_place(body, rv[-1], passthru, seen, out, depth + 1)
+        elif k == 'cast' and rv[1] in ('Transmute', 'PtrToPtr') and rv[2][0] in ('c', 'm'):
+            # Box deref lowering: the pointer inside a Box is transmuted before the dereference
+            _origins_place(body, rv[2][1], passthru, seen, out, depth + 1)
         elif k == 'cast':
             o = rv[2]
             fty = ''
